@@ -129,7 +129,7 @@ where T::Value: PartialEq + Debug + Clone {
     {
         Some(d) => block_first_ordinals(&d),
         None => {
-            rep.violation("sst:api-error:build", json!({"where": "ooo reference build"}));
+            viol(rep, "sst:api-error:build", json!({"where": "ooo reference build"}));
             return;
         }
     };
@@ -156,7 +156,7 @@ where T::Value: PartialEq + Debug + Clone {
         "previous_key": brief(&keys[p - 1]), "offered_key": brief(&bad),
         "blocks_flushed_before": edges.iter().filter(|&&e| e >= 1 && e <= p).count()});
     match offer_sst::<T>(&keys, &vals, block_len, p, &bad) {
-        Err(e) => rep.violation("sst:api-error:build", json!({"error": e, "witness": witness})),
+        Err(e) => viol(rep, "sst:api-error:build", json!({"error": e, "witness": witness})),
         Ok(Offer::RejectedErr(_)) => rep.observe("ooo_outcome", "sst:rejected-by-Err"),
         Ok(Offer::RejectedPanic(m)) => {
             let kind = if m.contains("Keys should be increasing") {
@@ -177,7 +177,7 @@ where T::Value: PartialEq + Debug + Clone {
             } else {
                 "sst:builder-silently-accepts-non-increasing-key"
             };
-            rep.violation(sig, witness);
+            viol(rep, sig, witness);
         }
     }
     if edges.iter().any(|&e| e >= 1 && e <= p) {
@@ -208,11 +208,11 @@ fn ooo_fst(rng: &mut Rng, rep: &mut Report) {
     let witness = json!({"target": "tantivy::termdict (fst)", "key_class": class, "n": n, "position": p,
         "bad_key_class": bad_class, "previous_key": brief(&keys[p - 1]), "offered_key": brief(&bad)});
     match offer_fst(&keys, &vals, p, &bad) {
-        Err(e) => rep.violation("fst:api-error:build", json!({"error": e, "witness": witness})),
+        Err(e) => viol(rep, "fst:api-error:build", json!({"error": e, "witness": witness})),
         Ok(Offer::RejectedErr(_)) => rep.observe("ooo_outcome", "fst:rejected-by-Err"),
         Ok(Offer::RejectedPanic(_)) => rep.observe("ooo_outcome", "fst:rejected-by-panic"),
         Ok(Offer::RejectedLater(_)) => rep.observe("ooo_outcome", "fst:rejected-later"),
-        Ok(Offer::Accepted) => rep.violation("fst:builder-silently-accepts-non-increasing-key", witness),
+        Ok(Offer::Accepted) => viol(rep, "fst:builder-silently-accepts-non-increasing-key", witness),
     }
     if p >= 256 {
         rep.nontrivial(format!("ooo|fst|{}|{}|{}|n{}|p{}", class, pos_class, bad_class, n, p));
